@@ -1,1 +1,48 @@
-// harnesses for jitter (none yet)
+// In-crate Kani harnesses for rand_jitter (included under cfg(all(kani, rngs_verif))).
+use super::*;
+use core::sync::atomic::{AtomicUsize, Ordering::SeqCst};
+
+struct Sink { buf: [u8; 64], n: usize }
+impl fmt::Write for Sink {
+    fn write_str(&mut self, s: &str) -> fmt::Result {
+        for b in s.bytes() {
+            if self.n < 64 { self.buf[self.n] = b; }
+            self.n += 1;
+        }
+        Ok(())
+    }
+}
+
+// ---- C17: Debug of a JitterRng in an arbitrary state ---------------------------------------------------------------
+#[kani::proof]
+#[kani::unwind(66)]
+fn jitter_debug_is_constant() {
+    use core::fmt::Write;
+    let g = JitterRng { data: kani::any(), rounds: kani::any(), timer: || 0u64, mem_prev_index: kani::any(), data_half_used: kani::any() };
+    let expect = b"JitterRng {}";
+    let mut s = Sink { buf: [0; 64], n: 0 };
+    write!(s, "{:?}", g).unwrap();
+    let k: usize = kani::any();
+    kani::assume(k < expect.len());
+    assert!(s.n == expect.len() && s.buf[k] == expect[k]);
+    let mut p = Sink { buf: [0; 64], n: 0 };
+    write!(p, "{:#?}", g).unwrap();
+    assert!(p.n == expect.len() && p.buf[k] == expect[k]);
+}
+
+// ---- C12: number of timer readings (the Verus contracts fix the values; the count is decided here) -----------------
+static READS: AtomicUsize = AtomicUsize::new(0);
+fn counting_timer() -> u64 {
+    READS.fetch_add(1, SeqCst);
+    kani::any()
+}
+fn any_rng() -> JitterRng<fn() -> u64> {
+    JitterRng { data: kani::any(), rounds: kani::any(), timer: counting_timer, mem_prev_index: kani::any(), data_half_used: kani::any() }
+}
+#[kani::proof]
+#[kani::unwind(18)]
+fn jitter_random_loop_cnt_reads_once() {
+    let mut g = any_rng();
+    let r = g.random_loop_cnt(4);
+    assert!(READS.load(SeqCst) == 1 && r < 16);
+}
